@@ -54,6 +54,18 @@ Theorem c07_ts_no_drift_rebased : forall rate t0 t, 0 < rate -> t0 <= t ->
 Proof. exact rtp_ms_delta. Qed.
 Print Assumptions c07_ts_no_drift_rebased.
 
+(* RTP packets that aggregate several AAC access units: the i-th one is stamped
+   rtp_ms ts0 + floor(i*1024000/rate) (Rtp/RtpUnpacker.v aac_multi) - within one
+   millisecond of the floor of the sample clock, for every i: the rounding does not
+   accumulate over the units of a packet (seed C07-1 hoisted floor(1024000/rate) out
+   of the loop: 2 ms off at the 7th unit at 48 kHz; the oracle now checks every audio
+   message against floor(1000*samples/rate)) *)
+Theorem c07_ts_multi_au : forall rate ts0 i, 0 < rate ->
+  let ms := rtp_ms rate ts0 + i * 1024000 / rate in
+  ms * rate <= (ts0 + 1024 * i) * 1000 /\ (ts0 + 1024 * i) * 1000 < (ms + 2) * rate.
+Proof. exact multi_au_stamp. Qed.
+Print Assumptions c07_ts_multi_au.
+
 (* the pinned tree divided by uint32(clockRate/1000) = 44 at 44.1 kHz: the error
    grows by 100 ms every 44 s, without bound (DESIGN F-24); witness inside the
    32-bit range: one hour of audio is 8181 ms late *)
